@@ -542,7 +542,10 @@ func genWellFormed(r *wk.Rand, u *refUnits, allowFrac, big bool) string {
 func genNearMiss(r *wk.Rand, u *refUnits) (string, string) {
 	s := genWellFormed(r, u, r.Bool(), false)
 	rs := []rune(s)
-	switch r.Intn(8) {
+	switch r.Intn(9) {
+	case 8: // a bare count with a sign, which the grammar does not have
+		n := 1 + r.Intn(100000)
+		return fmt.Sprintf(wk.Pick(r, []string{"-%d", "+%d", " -%d ", "-%d ", "- %d", "+0%d", "-%d.5"}), n), "signed bare count"
 	case 0: // garbage suffix
 		return s + wk.Pick(r, []string{"x", "!", "q q", "-", "1..2", ".", "e5"}), "garbage suffix"
 	case 1: // garbage prefix
